@@ -40,6 +40,17 @@ def probes():
                                                               Return(Str("fine"))]),
                                  Fn(["m"], False, [emit(Str("handler")), Return(Str("H"))]))]),
         emit(Var("ok"), Var("e"))], []))
+    ps.append(("C11-tailcall-error-position", [
+        LocalFn("f", Fn([], False, [Return(Call(Var("error"), Str("tail")))])),
+        Return(Call(Var("pcall"), Fn([], False, [Local(["x"], [Call(Var("f"))]), Return(Var("x"))])))], []))
+    ps.append(("C11-error-level1-go-caller", [Local(["ok", "e"], [Call(Var("pcall"), Var("error"), Str("msg"))]), Return(Var("ok"), Var("e"))], []))
+    ps.append(("C11-context-stack-shared-by-coroutines", [
+        Local(["ok", "e"], [Call(Var("xpcall"), Fn([], False, [
+            Local(["co"], [CO("wrap", Fn([], False, [SCall(Call(Var("xpcall"), Fn([], False, [SCall(CO("yield", Int(1)))]),
+                                                                      Fn(["m"], False, [emit(Str("h2")), Return(Var("m"))])))]))]),
+            emit(Call(Var("co"))), SCall(Call(Var("error"), Str("outer"), Int(0)))]),
+            Fn(["m"], False, [emit(Str("h1"), Var("m")), Return(Str("H1"))]))]),
+        emit(Var("ok"), Var("e"))], []))
     return ps
 
 
